@@ -576,3 +576,51 @@ fn realtime_crosscheck(col: &mut Collector) {
         }
     }
 }
+
+// ------------------------------------------------------------------ C20 corpus
+
+/// Writes the corpus replayed by the three feature-set builds of the dumper.
+pub fn gen_c20_corpus(ctx: &Ctx, out: &str) -> std::io::Result<(u64, u64, u64)> {
+    use std::io::Write;
+    let f = std::fs::File::create(out)?;
+    let mut w = std::io::BufWriter::new(f);
+    let mut r = Rng::derive(ctx.seed, "c20-corpus", 0);
+    let n_frames = ctx.q(120_000u64, 4_000_000);
+    let n_hist = ctx.q(400u64, 20_000);
+    let n_pairs = ctx.q(20_000u64, 1_000_000);
+    let classes = crate::gen::all_classes();
+    for i in 0..n_frames {
+        let m = if i % 3 == 0 { crate::gen::random_buffer(&mut r) } else { classes[(r.below(classes.len() as u64)) as usize].make(&mut r) };
+        writeln!(w, "F {}", hex(&m))?;
+    }
+    for _ in 0..n_pairs {
+        let o = r.below(2);
+        let o2 = if r.chance(0.9) { 1 - o } else { o };
+        writeln!(w, "P {} {} {} {} {} {}", r.below(131072), r.below(131072), o, r.below(131072), r.below(131072), o2)?;
+    }
+    // true pairs
+    for _ in 0..n_pairs / 4 {
+        let lat = (r.f64() * 2.0 - 1.0).asin().to_degrees();
+        let lon = r.f64() * 360.0 - 180.0;
+        let a = cpr::encode(lat, lon, false);
+        let b = cpr::encode(lat, lon, true);
+        writeln!(w, "P {} {} 0 {} {} 1", a.yz, a.xz, b.yz, b.xz)?;
+        writeln!(w, "P {} {} 1 {} {} 0", b.yz, b.xz, a.yz, a.xz)?;
+    }
+    let kinds: [&'static str; 4] = ["mixed", "few", "garbage", "mixed"];
+    for i in 0..n_hist {
+        let h = gen_history(&mut r, kinds[(i % 4) as usize], false);
+        writeln!(w, "H {} {} {}", h.receiver.0, h.receiver.1, h.max_range)?;
+        for (k, op) in h.ops.iter().enumerate() {
+            if let Op::Frame(m) = op {
+                writeln!(w, "A {}", hex(m))?;
+            }
+            if k % 16 == 15 {
+                writeln!(w, "D")?;
+            }
+        }
+        writeln!(w, "D")?;
+    }
+    w.flush()?;
+    Ok((n_frames, n_pairs + n_pairs / 2, n_hist))
+}
